@@ -162,8 +162,18 @@ def h_step(ctx, whole):
     obs.append(("state-is-one-buffer", len(changed) <= 1))
     end_b = sum(ns[:-1]) + 3 * (k - 1) + q - p
     B, rest = rest[:end_b], rest[end_b:]
+    depths = []
+
+    def deliver(frame):
+        up.append(frame)
+        depths.append(_depth())
+    layer.toUpper = deliver
     layer.receive(B)
+    layer.toUpper = up.append
     obs.append(("step-delivers-%d" % (k - 1), len(up) == k - 1))
+    # the call stack is state too: the step only extends to streams of any length if handing up frame j+1 does not
+    # happen deeper in the stack than handing up frame j
+    obs.append(("every frame of one read is handed up at the same call depth (%s)" % depths, len(set(depths)) <= 1))
     for j in range(min(k - 1, len(up))):
         obs.append(("frame%d-intact" % j, H.rope_eq(up[j], payloads[j])))
     bl = _buffer_len(layer)
@@ -173,6 +183,36 @@ def h_step(ctx, whole):
     obs.append(("completion-delivers-last", len(up) == k))
     if len(up) == k:
         obs.append(("last-intact", H.rope_eq(up[-1], payloads[-1])))
+    return obs
+
+
+def _depth():
+    import sys
+    f, n = sys._getframe(1), 0
+    while f is not None:
+        f, n = f.f_back, n + 1
+    return n
+
+
+def h_coalesced(ctx, count):
+    """`count` minimal frames (1 payload byte each, unconstrained) arrive in ONE read: all are handed up, in order"""
+    layer, up, down = _layer(True)
+    payload = H.blob(ctx, "P", count)
+    if H.sym(ctx):
+        stream = SymSeq([], "bytes")
+        for j in range(count):
+            stream.extend(b"\x00\x00\x01")
+            stream.extend(payload[j:j + 1])
+    else:
+        stream = b"".join(b"\x00\x00\x01" + bytes(payload[j:j + 1]) for j in range(count))
+    layer.receive(stream)
+    obs = [("count==%d (got %d)" % (count, len(up)), len(up) == count)]
+    for j in (0, 1, count // 2, count - 2, count - 1):
+        if j < len(up):
+            obs.append(("frame%d-intact" % j, H.rope_eq(up[j], payload[j:j + 1])))
+    bl = _buffer_len(layer)
+    if bl is not None:
+        obs.append(("buffer-empty-at-end", core.eq(bl, 0)))
     return obs
 
 
@@ -211,6 +251,8 @@ def cases(tier):
         cs.append(dict(name="consumer-fault[k=%d,m=%d]" % (k, m), fn=h_consumer_fault, args=(k, m), weight=(k + 1) ** m, timeout_s=120 if tier == "quick" else 2400, max_paths=200000))
     for w in (0, 1, 2):
         cs.append(dict(name="step[whole=%d]" % w, fn=h_step, args=(w,), weight=30 * (w + 1), timeout_s=120 if tier == "quick" else 1200))
+    for n in (1100,) if tier == "quick" else (1100, 4000):
+        cs.append(dict(name="coalesced[%d minimal frames in one read]" % n, fn=h_coalesced, args=(n,), weight=50, timeout_s=1200))
     cs.append(dict(name="send[enabled]", fn=h_send, args=(True,)))
     cs.append(dict(name="send[disabled]", fn=h_send, args=(False,)))
     cs.append(dict(name="receive[disabled]", fn=h_passthrough))
